@@ -2,7 +2,7 @@
 import ast
 
 from ..core import AnalysisError, src, qualname_of, enclosing_function, parents
-from ..pysym import SymExec, show, subterms
+from ..pysym import path_values, SymExec, show, subterms
 from ..rules_pyx import N, C, A, bind_args
 from .. import codec
 from .. import datafiles as df
@@ -68,7 +68,7 @@ def eval_unary_labels(repo):
     mod = repo.module(rg.JA)
     fn = mod.get('_unary_rule_symbol')
     p = fn.args.args[0].arg
-    paths = [(st, st.ret) for st, o in SymExec(fn).run() if o == 'return']
+    paths = path_values(SymExec(fn).run())
     labels = set()
     for lhs, _ in table:
         c = df.parse_cat(lhs)
@@ -76,10 +76,12 @@ def eval_unary_labels(repo):
         pairs = df.feature_pairs(atom)
         facts_n = df.nargs(c)
         hit = None
-        for st, ret in paths:
+        for conds_, ret in paths:
             ok = True
-            for cond, pol, _ in st.conds:
+            for cond, pol in conds_:
                 v = None
+                if cond[0] == 'cmp' and cond[1] == '==' and cond[2][0] == 'const' and cond[3][0] != 'const':
+                    cond = ('cmp', '==', cond[3], cond[2])
                 if cond[0] == 'cmp' and cond[1] == 'in' and cond[2][0] == 'tuple' and all(x[0] == 'const' for x in cond[2][1]):
                     v = pairs is not None and tuple(x[1] for x in cond[2][1]) in [tuple(q) for q in pairs]
                 elif cond[0] == 'cmp' and cond[1] == '==' and cond[2] == A(N(p), 'nargs') and cond[3][0] == 'const':
